@@ -61,7 +61,7 @@ STATEMENTS = {
 TRUSTED = [
     'LawfulSource as the contract of the read callable handed to the sync reader (returns a prefix of the text still to come, at most the requested length, empty only at its end); instance proved for the file-like source with any short-read oracle',
     'the Python statement oracle `Cur` in harness/props/c14.py (flat cursor; a delimited sub-reader = cursor over the text up to the next delimiter)',
-    'SIGALRM (3 s) deciding "did not return" for a sync call; asyncio.wait_for(..., 3 s) + SIGALRM for an async call',
+    'timers deciding "did not return": 3 s of CPU time (ITIMER_VIRTUAL) or 60 s wall-clock (ITIMER_REAL) per real call; asyncio.wait_for(..., 60 s) around every async case',
     'the async reader (falcon/asgi/reader.py) is covered by the model correspondence and the oracle only - no theorem is stated about AsyncReader.lean',
 ]
 ASSUMPTIONS = [
@@ -87,7 +87,8 @@ JOBS = {'quick': 4, 'thorough': 16}
 ALPH = b'ab\r\n-'
 DELIMS = [b'\n', b'-', b'\r\n', b'--', b'\r\n--', b'a-a', b'ab']
 CHUNKS = [1, 2, 3, 4, 5, 6, 7, 8, 9, 64]
-OP_TIMEOUT = 3.0
+OP_TIMEOUT = 3.0        # CPU seconds one real call may burn before it counts as 'did not return'
+WALL_TIMEOUT = 60.0     # wall-clock backstop for one real call (sync) / one case (async, asyncio.wait_for)
 MAX_HANGS = 3          # a worker stops generating after that many calls that did not return (each costs OP_TIMEOUT)
 
 
@@ -221,7 +222,7 @@ def _show(o):
         return 'lines [' + ' '.join(x.hex() for x in o[1]) + ']'
     if o[0] == 'chunks':
         return 'chunks ' + (o[1] if isinstance(o[1], str) else '[' + ' '.join(x.hex() for x in o[1]) + ']')
-    return {'delim': 'DelimiterError', 'value': 'ValueError', 'unit': 'None', 'hang': 'no return within %.0f s' % OP_TIMEOUT,
+    return {'delim': 'DelimiterError', 'value': 'ValueError', 'unit': 'None', 'hang': 'no return within %.0f s of CPU time' % OP_TIMEOUT,
             'blocked': 'blocked awaiting'}.get(o[0], ' '.join(map(str, o)))
 
 
@@ -365,18 +366,47 @@ class _Src:
         return out
 
 
+class _Alarm:
+    """`runner.alarm` for hot loops: the handlers are installed once per worker and every real call only (re)arms two timers -
+    OP_TIMEOUT seconds of *CPU time* (ITIMER_VIRTUAL: a busy loop, which is how F21 shows, burns CPU; a machine loaded by other
+    jobs does not) and WALL_TIMEOUT seconds of wall-clock time (ITIMER_REAL, backstop for a call that sleeps). Both raise
+    `runner.Hang`; the timers repeat so that a Hang swallowed inside a C callback is followed by another one."""
+
+    def __init__(self):
+        import signal
+        from runner import Hang
+        self.Hang = Hang
+        self.set = signal.setitimer
+        self.V, self.R = signal.ITIMER_VIRTUAL, signal.ITIMER_REAL
+
+        def handler(signum, frame):
+            raise Hang()
+        signal.signal(signal.SIGVTALRM, handler)
+        signal.signal(signal.SIGALRM, handler)
+
+    def arm(self):
+        self.set(self.V, OP_TIMEOUT, 0.5)
+        self.set(self.R, WALL_TIMEOUT, 5.0)
+
+    def off(self):
+        self.set(self.V, 0)
+        self.set(self.R, 0)
+
+
 class _SyncEnv:
     def __init__(self, BR, DelimiterError, with_model=True):
         import io
-        from runner import alarm, Hang
-        self.BR, self.DE, self.io, self.alarm, self.Hang = BR, DelimiterError, io, alarm, Hang
+        self.BR, self.DE, self.io = BR, DelimiterError, io
+        self.alarm = _Alarm()
+        self.Hang = self.alarm.Hang
         self.hangs = 0
         self.with_model = with_model
 
     def call(self, r, op):
         k = op[0]
         try:
-            with self.alarm(OP_TIMEOUT):
+            try:
+                self.alarm.arm()
                 if k == 'read':
                     return ('ok', r.read(op[1]))
                 if k == 'peek':
@@ -393,7 +423,11 @@ class _SyncEnv:
                     return ('lines', tuple(r.readlines(op[1])))
                 if k == 'exhaust':
                     r.exhaust(); return ('unit',)
+                if k == 'delimit':
+                    return ('reader', r.delimit(op[1]))
                 raise AssertionError(op)
+            finally:
+                self.alarm.off()
         except self.Hang:
             self.hangs += 1
             return ('hang',)
@@ -428,12 +462,11 @@ def _run_sync(env, plan, next_op, sess=None):
                 continue
             hist.append(_jop(op))
             r, cur, _ = stack[-1]
-            try:
-                with env.alarm(OP_TIMEOUT):
-                    child = r.delimit(op[1])
-            except Exception as e:  # noqa
-                failed = f'delimit raised {type(e).__name__}'
+            obs = env.call(r, op)
+            if obs[0] != 'reader':
+                failed = f'delimit {_hx(op[1])} ' + ('did not return' if obs[0] == 'hang' else 'raised ' + str(obs[1:]))
                 break
+            child = obs[1]
             ccur, p0 = cur.sub(op[1]) if spec_on else (None, 0)
             stack.append((child, ccur, p0))
             tags.add('delimit' + str(len(stack) - 1))
@@ -472,7 +505,7 @@ def _run_sync(env, plan, next_op, sess=None):
         if obs[0] in ('ok', 'lines') and obs[1]:
             nontriv = True
         if obs[0] == 'hang':
-            failed = f'{_line(op)} did not return within {OP_TIMEOUT:.0f} s'
+            failed = f'{_line(op)} did not return ({OP_TIMEOUT:.0f} s of CPU time)'
         elif obs[0] == 'exc':
             failed = f'{_line(op)} raised {obs[1]}: {obs[2]}'
         elif src.over:
@@ -572,12 +605,14 @@ def _sync(ctx, BR, DelimiterError):
     env = _SyncEnv(BR, DelimiterError)
     sess = ctx.session('sync BufferedReader (root + nested delimited readers) = Rd model', 'rddriver')
 
-    def record(plan, failed, hist, nontriv, tags, kind):
-        case = {'reader': 'sync', 'data': plan['data'], 'max_stream_len': plan['maxlen'], 'chunk_size': plan['chunk'],
-                'source_short_reads': plan['shorts'] if len(plan['shorts']) <= 40 else f"{len(plan['shorts'])} x {plan['shorts'][0]}",
-                'history': hist}
+    def record(plan, failed, hist, nontriv, tags, kind, key=None):
+        case = None
+        if failed is not None:
+            case = {'reader': 'sync', 'data': plan['data'], 'max_stream_len': plan['maxlen'], 'chunk_size': plan['chunk'],
+                    'source_short_reads': plan['shorts'] if len(plan['shorts']) <= 40 else f"{len(plan['shorts'])} x {plan['shorts'][0]}",
+                    'history': hist}
         ctx.oracle(SYNC_ORACLE, failed is None, failed, case)
-        ctx.seen(('s', plan['data'], plan['chunk'], plan['maxlen'], tuple(plan['shorts'][:12]), len(plan['shorts']), str(hist)), nontriv)
+        ctx.seen(key or ('s', plan['data'], plan['chunk'], plan['maxlen'], tuple(plan['shorts'][:12]), len(plan['shorts']), str(hist)), nontriv)
         ctx.count(f'sync_{kind}_cases')
         for t in tags:
             ctx.count('sync_' + t)
@@ -596,33 +631,37 @@ def _sync(ctx, BR, DelimiterError):
         ctx.count('sync_maxlen_' + ('exact' if plan['maxlen'] == len(plan['data']) else 'shorter' if plan['maxlen'] < len(plan['data']) else 'truncated_body'))
         ctx.count('sync_ops', len(hist))
     # ---- grid: every short data string x chunk size x source pattern x every short history
-    words = _words(3 if ctx.quick else 4) if not (ctx.searching and ctx.scale < 10) else []   # a search started from thorough would repeat the same grid
+    if ctx.searching and ctx.scale < 10:
+        words = []            # a search started from the thorough tier would only repeat the same grid
+    else:
+        words = _words(3 if ctx.quick else 4)
     hists3 = list(_histories(SYNC_GRID_OPS, 2 if ctx.quick else 3))
     hists2 = [h for h in hists3 if len(h) <= 2]
-    chunks = [1, 2, 3, 5, 64] if ctx.quick else CHUNKS
     i, k = ctx.shard
     idx = 0
     for w in words:
         L = len(w)
         hists = hists3 if L <= 3 else hists2     # thorough: length-3 histories on all data up to length 3, length-2 on length 4
-        for chunk in chunks:
+        # chunk sizes above len+1 all behave like "everything fits into one chunk": 1..len+1 and 64
+        for chunk in list(range(1, L + 2)) + [64]:
             for (mode, shorts, maxlen) in (('none', [], L), ('ones', [1] * (L + 4), L), ('rand', [2, 0, 1], L + 2), ('none', [], max(0, L - 1))):
                 if ctx.quick and mode == 'rand':
                     continue
+                plan = {'data': w, 'chunk': chunk, 'maxlen': maxlen, 'shorts': shorts, 'grid': True}
                 for h in hists:
                     idx += 1
                     if idx % k != i:
                         continue
-                    if len(h) > L + 1 and not (idx // k) % 7 == 0:
+                    j = idx // k
+                    if len(h) > L + 1 and j % 7:
                         continue     # histories much longer than the data are mostly reads at EOF: keep a seventh
-                    if ctx.quick and L == 3 and not (idx // k) % 5 == 0:
+                    if ctx.quick and L == 3 and j % 5:
                         continue     # quick tier: complete up to length 2, a fifth of length 3
                     if env.hangs >= MAX_HANGS:
                         break
-                    plan = {'data': w, 'chunk': chunk, 'maxlen': maxlen, 'shorts': shorts, 'grid': True}
                     it = iter(h)
-                    failed, hist, nontriv, tags = _run_sync(env, plan, lambda *_a: next(it, None), sess if (idx // k) % 40 == 0 else None)
-                    record(plan, failed, hist, nontriv, tags, 'grid')
+                    failed, hist, nontriv, tags = _run_sync(env, plan, lambda *_a: next(it, None), sess if j % 40 == 0 else None)
+                    record(plan, failed, hist, nontriv, tags, 'grid', ('sg', idx))
     sess.finish()
 
 
@@ -645,49 +684,62 @@ class _Sink:
         self.b += d
 
 
-async def _acall(asyncio, alarm, Hang, DE, r, op):
+async def _acall(alarm, DE, r, op):
+    """one real async call; CPU/wall timers armed around it (the enclosing case runs under asyncio.wait_for)"""
     k = op[0]
-
-    async def body():
-        if k == 'read':
-            return ('ok', await r.read(op[1]))
-        if k == 'readall':
-            return ('ok', await r.readall())
-        if k == 'peek':
-            return ('ok', await r.peek(op[1]))
-        if k == 'ru':
-            return ('ok', await r.read_until(op[1], op[2], bool(op[3])))
-        if k == 'pu':
-            dst = _Sink(); await r.pipe_until(op[1], dst, bool(op[2])); return ('ok', dst.b)
-        if k == 'pipe':
-            dst = _Sink(); await r.pipe(dst); return ('ok', dst.b)
-        if k == 'exhaust':
-            await r.exhaust(); return ('unit',)
-        if k == 'iter':
-            out = []
-            async for ch in r:
-                out.append(ch)
-                if len(out) >= op[1]:
-                    break
-            return ('chunks', tuple(out))
-        raise AssertionError(op)
     try:
-        with alarm(OP_TIMEOUT + 0.5):
-            return await asyncio.wait_for(body(), OP_TIMEOUT)
-    except Hang:
+        try:
+            alarm.arm()
+            if k == 'read':
+                return ('ok', await r.read(op[1]))
+            if k == 'readall':
+                return ('ok', await r.readall())
+            if k == 'peek':
+                return ('ok', await r.peek(op[1]))
+            if k == 'ru':
+                return ('ok', await r.read_until(op[1], op[2], bool(op[3])))
+            if k == 'pu':
+                dst = _Sink(); await r.pipe_until(op[1], dst, bool(op[2])); return ('ok', dst.b)
+            if k == 'pipe':
+                dst = _Sink(); await r.pipe(dst); return ('ok', dst.b)
+            if k == 'exhaust':
+                await r.exhaust(); return ('unit',)
+            if k == 'iter':
+                out = []
+                async for ch in r:
+                    out.append(ch)
+                    if len(out) >= op[1]:
+                        break
+                return ('chunks', tuple(out))
+            raise AssertionError(op)
+        finally:
+            alarm.off()
+    except alarm.Hang:
         return ('hang',)
-    except asyncio.TimeoutError:
-        return ('blocked',)
     except DE:
         return ('delim',)
     except ValueError:
         return ('value',)
     except Exception as e:  # noqa
+        if type(e).__name__ == 'CancelledError':
+            raise
         return ('exc', type(e).__name__, str(e)[:80])
 
 
 async def _run_async(env, plan, next_op, sess=None):
-    asyncio, alarm, Hang, BR, DE = env
+    """One async case, as a whole under asyncio.wait_for: a call that is still awaiting after WALL_TIMEOUT although its source is
+    a finite generator is an outcome ("blocked"), like a sync call that does not return."""
+    asyncio = env[0]
+    st = {'hist': [], 'nontriv': False, 'tags': set(), 'op': None, 'oracle_only': False}
+    try:
+        failed = await asyncio.wait_for(_run_async_body(env, plan, next_op, sess, st), WALL_TIMEOUT)
+    except asyncio.TimeoutError:
+        failed = f"{_line(st['op']) if st['op'] else 'the case'} was still awaiting after {WALL_TIMEOUT:.0f} s although the source is finite"
+    return failed, st['hist'], st['nontriv'], st['tags'], st['oracle_only']
+
+
+async def _run_async_body(env, plan, next_op, sess, st):
+    asyncio, alarm, BR, DE = env
     parts, chunk, sleepy = plan['parts'], plan['chunk'], plan.get('sleepy', False)
     data = b''.join(parts)
 
@@ -705,7 +757,7 @@ async def _run_async(env, plan, next_op, sess=None):
     if modelled:
         sess.case({'reader': 'async'})
         sess.op(f'new {chunk} ' + ' '.join(_hx(p) for p in parts), 'ok')
-    hist, failed, nontriv, tags, spec_on = [], None, False, set(), True
+    hist, failed, tags, spec_on = st['hist'], None, st['tags'], True
     while failed is None:
         buffered = (delivered[0] - min(stack[0][1].ps)) if (len(stack) == 1 and spec_on) else None
         op = next_op(len(stack) - 1, stack[-1][1].exact(), stack[-1][3], stack[-1][1], buffered)
@@ -742,7 +794,8 @@ async def _run_async(env, plan, next_op, sess=None):
             tags.add('invalid_delimiter')
         r, cur = stack[-1][0], stack[-1][1]
         hist.append(_jop(op))
-        obs = await _acall(asyncio, alarm, Hang, DE, r, op)
+        st['op'] = op
+        obs = await _acall(alarm, DE, r, op)
         try:
             tell, eof = r.tell(), r.eof
         except Exception as e:  # noqa
@@ -751,11 +804,9 @@ async def _run_async(env, plan, next_op, sess=None):
         if modelled:
             sess.op(_line(op), _render(obs) + f" tell={tell} eof={'true' if eof else 'false'}")
         if obs[0] in ('ok', 'chunks') and obs[1]:
-            nontriv = True
+            st['nontriv'] = True
         if obs[0] == 'hang':
-            failed = f'{_line(op)} did not return within {OP_TIMEOUT:.0f} s'
-        elif obs[0] == 'blocked':
-            failed = f'{_line(op)} was still awaiting after {OP_TIMEOUT:.0f} s although the source is finite'
+            failed = f'{_line(op)} did not return ({OP_TIMEOUT:.0f} s of CPU time)'
         elif obs[0] == 'exc':
             failed = f'{_line(op)} raised {obs[1]}: {obs[2]}'
         elif spec_on:
@@ -776,7 +827,8 @@ async def _run_async(env, plan, next_op, sess=None):
                                or (k == 'iter' and len(obs[1]) < op[1]))
                     if saw_end:
                         failed = f'eof is False after {_line(op) if k != "iter" else "iterate"} ran into the end of the data (tell() = {tell})'
-    return failed, hist, nontriv, tags, sess is not None and not modelled
+    st['oracle_only'] = sess is not None and not modelled
+    return failed
 
 
 def _async_plan(rnd, big):
@@ -852,22 +904,23 @@ def _async_chooser(rnd, plan):
 
 def _async(ctx, BR, DelimiterError):
     import asyncio
-    from runner import alarm, Hang
     rnd = ctx.rng
-    env = (asyncio, alarm, Hang, BR, DelimiterError)
+    env = (asyncio, _Alarm(), BR, DelimiterError)
     sess = ctx.session('async BufferedReader (root reader) = ARd model', 'ardriver')
     stuck = [0]
 
-    def record(plan, res, kind):
+    def record(plan, res, kind, key=None):
         failed, hist, nontriv, tags, _ = res
-        case = {'reader': 'async', 'source_chunks': plan['parts'] if len(plan['parts']) <= 60 else [b''.join(plan['parts']), f"in {len(plan['parts'])} chunks ({plan.get('src_mode')})"],
-                'chunk_size': plan['chunk'], 'source_yields_to_loop': plan.get('sleepy', False), 'history': hist}
+        case = None
+        if failed is not None:
+            case = {'reader': 'async', 'source_chunks': plan['parts'] if len(plan['parts']) <= 60 else [b''.join(plan['parts']), f"in {len(plan['parts'])} chunks ({plan.get('src_mode')})"],
+                    'chunk_size': plan['chunk'], 'source_yields_to_loop': plan.get('sleepy', False), 'history': hist}
         ctx.oracle(ASYNC_ORACLE, failed is None, failed, case)
-        ctx.seen(('a', tuple(plan['parts'][:80]), len(plan['parts']), plan['chunk'], str(hist)), nontriv)
+        ctx.seen(key or ('a', tuple(plan['parts'][:80]), len(plan['parts']), plan['chunk'], str(hist)), nontriv)
         ctx.count(f'async_{kind}_cases')
         for t in tags:
             ctx.count('async_' + t)
-        if failed and 'did not return' in failed:
+        if failed and ('did not return' in failed or 'still awaiting' in failed):
             stuck[0] += 1
 
     async def main():
@@ -881,34 +934,37 @@ def _async(ctx, BR, DelimiterError):
             ctx.count('async_len_' + ('big' if big else 'small'))
             ctx.count('async_src_' + plan['src_mode'])
             ctx.count('async_ops', len(res[1]))
-        words = _words(3 if ctx.quick else 4) if not (ctx.searching and ctx.scale < 10) else []
+        if ctx.searching and ctx.scale < 10:
+            words = []
+        else:
+            words = _words(3 if ctx.quick else 4)
         hists3 = list(_histories(ASYNC_GRID_OPS, 2 if ctx.quick else 3))
         hists2 = [h for h in hists3 if len(h) <= 2]
-        chunks = [1, 2, 3, 5, 64] if ctx.quick else CHUNKS
         i, k = ctx.shard
         idx = 0
         for w in words:
             L = len(w)
             hists = hists3 if L <= 3 else hists2
             splits = [('whole', [w]), ('ones', [w[j:j + 1] for j in range(L)]), ('empties', [b''] + [x for j in range(0, L, 2) for x in (w[j:j + 2], b'')])]
-            for chunk in chunks:
+            for chunk in list(range(1, L + 2)) + [64]:
                 for (mode, parts) in splits:
                     if ctx.quick and mode == 'empties':
                         continue
+                    plan = {'parts': parts, 'chunk': chunk, 'src_mode': mode, 'grid': True}
                     for h in hists:
                         idx += 1
                         if idx % k != i:
                             continue
-                        if len(h) > L + 1 and not (idx // k) % 7 == 0:
+                        j = idx // k
+                        if len(h) > L + 1 and j % 7:
                             continue
-                        if ctx.quick and L == 3 and not (idx // k) % 5 == 0:
+                        if ctx.quick and L == 3 and j % 5:
                             continue
                         if stuck[0] >= MAX_HANGS:
                             break
-                        plan = {'parts': parts, 'chunk': chunk, 'src_mode': mode, 'grid': True}
                         it = iter(h)
-                        res = await _run_async(env, plan, lambda *_a: next(it, None), sess if (idx // k) % 40 == 0 else None)
-                        record(plan, res, 'grid')
+                        res = await _run_async(env, plan, lambda *_a: next(it, None), sess if j % 40 == 0 else None)
+                        record(plan, res, 'grid', ('ag', idx))
     asyncio.run(main())
     sess.finish()
 
